@@ -47,6 +47,8 @@ def lgi (s : Stack) : List (Nat × OEv × Nat) := s.offLog
 @[simp] theorem lgi_with_subLog (s : Stack) (x : List (Addr × Nat × List Eventgroup)) : lgi { s with subLog := x } = lgi s := rfl
 @[simp] theorem lgi_with_findLog (s : Stack) (x : List (Nat × Nat)) : lgi { s with findLog := x } = lgi s := rfl
 @[simp] theorem lgi_with_findMarks (s : Stack) (x : List (Nat × Nat)) : lgi { s with findMarks := x } = lgi s := rfl
+@[simp] theorem lgi_with_ansLog (s : Stack) (x : List (Nat × Addr × Nat × Nat)) : lgi { s with ansLog := x } = lgi s := rfl
+@[simp] theorem lgi_logAnswer (s : Stack) (i : Nat) (a : Addr) (d : Nat) : lgi (s.logAnswer i a d) = lgi s := rfl
 @[simp] theorem lgi_markFind (s : Stack) (n : Nat) : lgi (s.markFind n) = lgi s := rfl
 @[simp] theorem lgi_with_subDup (s : Stack) (x : Bool) : lgi { s with subDup := x } = lgi s := rfl
 @[simp] theorem lgi_with_subLost (s : Stack) (x : Bool) : lgi { s with subLost := x } = lgi s := rfl
